@@ -199,6 +199,52 @@ def w_filter(case):
                 viol.append({'sub': 'split', 'message': 'splitting the time points '
                              'over a composed filter changes the value (%s)' % lab,
                              'expected': base, 'observed': g, 'behaviour': 'split'})
+    # a composition inside a composition, the inner one re-sorted before it is
+    # wrapped: its remembered order travels with it
+    if composed and len(blocks) >= 2:
+        t_in = sum(b[1] for b in blocks[:-1])
+        for o_in in itertools.permutations(range(t_in)):
+            o_in = list(o_in)
+            inner = build_filter(blocks[:-1], y[..., :t_in], True)
+            inner.sort_times(o_in)
+            last = mk(blocks[-1][0], y[..., t_in:], blocks[-1][2])
+            outer = chi.ComposedPopulationFilter([inner, last])
+            arg = np.concatenate([sim[..., :t_in][..., o_in], sim[..., t_in:]],
+                                 axis=2)
+            g = outer.compute_log_likelihood(arg.copy())
+            s_n, se_n = outer.compute_sensitivities(arg.copy())
+            ntr += 2
+            exp_se = np.concatenate([sens[..., :t_in][..., o_in], sens[..., t_in:]],
+                                    axis=2)
+            if not tol.close(g, base) or not tol.close(s_n, base) or not \
+                    tol.allclose(np.asarray(se_n, dtype=float), exp_se, 1e-7,
+                                 1e-9 * scale):
+                viol.append({'sub': 'nested', 'message': 'a composed filter holding '
+                             'a re-sorted composed filter does not give the value / '
+                             'sensitivities of the flat composition (%s)' % lab,
+                             'orders': [o_in], 'expected': base, 'observed': g,
+                             'behaviour': 'nested'})
+                break
+    # the same filter object evaluated with other numbers of simulated individuals
+    ns0 = sim.shape[0]
+    step = blocks[0][2] if any(b[0] == 'GM' for b in blocks) else 1
+    for ns2 in (ns0 + step, ns0 + 2 * step):
+        extra = sim[np.arange(ns2 - ns0) % ns0] * (1.07 + 0.01 * np.arange(
+            ns2 - ns0))[:, None, None]
+        sim2 = np.concatenate([sim, extra], axis=0)
+        g = f.compute_log_likelihood(sim2.copy())
+        s2_, _ = f.compute_sensitivities(sim2.copy())
+        e2 = expected(y, sim2)
+        g_back = f.compute_log_likelihood(sim.copy())
+        ntr += 3
+        if not tol.close(g, e2) or not tol.close(s2_, e2) or \
+                not tol.close(g_back, got):
+            viol.append({'sub': 'n_sim_history', 'message': 'the same filter '
+                         'evaluated with %d and then %d simulated individuals (and '
+                         'back) differs from the documented density (%s)'
+                         % (ns0, ns2, lab), 'expected': [e2, got],
+                         'observed': [g, g_back], 'behaviour': 'n_sim_history'})
+            break
     return {'transitions': ntr, 'outcome': tol.rnd([got, sens]), 'violations': viol}
 
 
@@ -240,6 +286,20 @@ def make_extreme(blocks, composed, n_ids, n_obs, T, n_sim, seed, gap):
         for r in range(n_obs):
             c['y'][i][r][0] = 1.0 + gap * (1 + 0.05 * i)
     c['sim'] = sim.tolist()
+    return c
+
+
+def make_offset(blocks, n_ids, n_obs, T, n_sim, seed, offset, spread):
+    """Values far from zero compared with their spread (|mean| / sd ~ offset /
+    spread): the documented estimates are moments about the mean."""
+    c = make_case(blocks, False, n_ids, n_obs, T,
+                  np.zeros((n_ids, n_obs, T), dtype=bool), n_sim, seed, False)
+    sim = np.array(c['sim'])
+    sim = offset + spread * (sim - sim.mean()) / sim.std()
+    yv = np.array(c['y'], dtype=float)
+    yv = offset + spread * (yv - 3.0) / 2.0
+    c['sim'] = sim.tolist()
+    c['y'] = yv.tolist()
     return c
 
 
@@ -294,6 +354,11 @@ def build(tier, seed):
                 continue
             extreme.append(make_extreme([(k1, 1, 2), (k2, T - 1, 2)], True, n_ids,
                                         n_obs, T, 4, seed, 0.5))
+    for kind, nk in (('G', 2), ('GKDE', 2), ('GM', 2), ('GM', 3)):
+        for offset, spread in ((1e3, 0.5), (1e5, 0.05), (1e6, 0.5)):
+            for n_ids, n_obs, T in ((1, 1, 1), (2, 1, 2)):
+                extreme.append(make_offset([(kind, T, nk)], n_ids, n_obs, T,
+                                           2 * nk, seed, offset, spread))
     return {
         'parts': [
             Part('extreme', extreme, w_filter,
